@@ -51,14 +51,23 @@ def run(ctx: vf.Ctx):
 
 
 def inverse_and_unitary(ctx: vf.Ctx):
+    import circ_run as cr
+    rng = ctx.rng
+    for t in range(ctx.n(60, 600)):
+        try:
+            with cr.watchdog(60):
+                _inverse_and_unitary_case(ctx, rng, t)
+        except cr.HistoryTimeout:
+            ctx.violation(dict(call='get_inverse/fold/renumber', symptom='hang'), dict(case=t), 'returns', 'no return within 60s', 'numerical pass: a call does not return')
+
+
+def _inverse_and_unitary_case(ctx: vf.Ctx, rng, t):
     """Numerical support for the `therefore the same unitary` clauses: structure-only calls keep the unitary,
     renumbering conjugates it, inverse composes to the identity."""
     import numpy as np
     import circ_common as cc
     from bqskit.qis.permutation import PermutationMatrix
-    rng = ctx.rng
-    n_cases = ctx.n(60, 600)
-    for t in range(n_cases):
+    if True:
         n = rng.randint(1, 4)
         rads = tuple(rng.choice([2, 2, 3]) for _ in range(n))
         c = cc.Circuit(n, list(rads))
